@@ -97,8 +97,10 @@ FirstSetsOk == (i > 0 /\ k = 0) =>
 \* ---- E: the property on the real parser's runs ----------------------------------
 LrRan == AtRunStart /\ HasTables
 Accepted == Run.lr.ok /\ Run.lr.acc
-\* parse either returns or raises ParserException
-LrClean == LrRan => Run.lr.ok
+\* parse either returns or raises ParserException (claimed for grammars without
+\* shift/reduce conflict only: with silently resolved conflicts the property
+\* promises nothing but LrSound, e.g. not termination)
+LrClean == (LrRan /\ ~Run.lr.ok) => HasSRConflict(G)
 \* never accepts a word outside the language (also with resolved conflicts)
 LrSound == (LrRan /\ Accepted) => d = "yes"
 \* the returned value is the one the semantic actions compute along a
@@ -117,7 +119,7 @@ EarleyOk == (k > 0 /\ c.status = "earley") =>
 
 \* ---- T: ppci's tables in the machine ------------------------------------------
 Live == k > 0 /\ c.status \in {"run", "accept", "reject"}
-TablesWellFormed == c.status \notin {"broken", "diverge"}
+TablesWellFormed == c.status \in {"broken", "diverge"} => HasSRConflict(G)
 MachineStackShape == Live => StackShape(c)
 MachineViable == Live => ViablePrefix(G, c.syms)
 MachineAcceptAtEnd == Live => AcceptAtEnd(G, W, c)
